@@ -158,3 +158,27 @@ Definition spec_endpoint_b (rt : router) (epx : obj) (b0 : backend) (rest : list
   | [], None => let '(m, r, d) := b0 in spec_single_b m r d o raw
   | _, _ => true
   end.
+
+(* ---- proxy level: the (response, error) of the backend proxy (cases CProxy / CProxyRaw) ---- *)
+Definition perr_eqb (a b : perr) : bool :=
+  match a, b with
+  | ENone, ENone | EInvalidStatus, EInvalidStatus | EDecode, EDecode => true
+  | ECode c m e, ECode c' m' e' => (c =? c')%Z && str_eqb m m' && str_eqb e e'
+  | _, _ => false
+  end.
+
+Definition proxy_spec_b (m : mode) (r : reply) (decoded : option obj) (o : pout) : bool :=
+  if ok_status (r_code r) then
+    match decoded, fst o with
+    | Some d, Some p => obj_eqb d (p_data p) && p_complete p && perr_eqb (snd o) ENone
+    | Some _, None => false
+    | None, _ => true
+    end
+  else match m with
+       | MDefault => match o with (None, EInvalidStatus) => true | _ => false end
+       | MErrorCode => match o with (None, ECode c _ _) => (c =? r_code r)%Z | _ => false end
+       | MDetails n => match fst o with
+                       | Some p => negb (p_complete p) && details_ok_b n r (p_data p)
+                       | None => false end
+       end.
+
